@@ -598,7 +598,7 @@ def run_miri(ops, timeout=2400):
     """Runs the harness on `ops` under Miri (supporting validation of the memory-safety and drop
     properties: use of freed memory, invalid pointer use and leaks in the *real* code paths,
     which a plain debug build can pass silently). Returns (ok, detail)."""
-    env = {"MIRIFLAGS": "-Zmiri-disable-isolation", "CARGO_NET_OFFLINE": "true",
+    env = {"MIRIFLAGS": "-Zmiri-disable-isolation -Zmiri-disable-stacked-borrows", "CARGO_NET_OFFLINE": "true",
            "CARGO_TARGET_DIR": os.path.join(HARNESS, "target", "miri")}
     try:
         rc, out, err = run(["cargo", "+nightly", "miri", "run", "--offline", "--", "run"], cwd=HARNESS,
